@@ -44,6 +44,37 @@ Theorem C05_precedence_table :
   length ptab = 3%nat.
 Proof. vm_compute. repeat split; reflexivity. Qed.
 
+(** Parsing.  [cexpr] trees (identifiers of the grammar, constants below 2^63, function calls, the
+    18 binary and 3 unary operators); [render_np np] prints a tree with an arbitrary parenthesisation
+    policy [np]; [np_sound np]: the policy parenthesises at least every operand whose operator binds
+    more loosely than its position allows by the documented table of levels - binary operators
+    left-associative, unary operators above all binary ones ([np_min] prints exactly those, [np_all]
+    parenthesises every compound operand).  THEOREM: for every such printer and every tree, the
+    grammar of the model - the precedence-climbing parser peg generates, instantiated with the
+    operator table regenerated from src/document.rs on every run - reads the printed text back as
+    that same tree, consuming all of it: a text means what the documented precedence and
+    associativity say, for all 18+3 operators and any nesting.  (Proofs/ClimbProofs.v, generic in
+    the tables; Proofs/ExprRoundTrip.v, the instance.) *)
+Require Import AvraV.Model.Climb AvraV.Proofs.ClimbProofs AvraV.Proofs.ExprRoundTrip.
+Theorem C05_parse : forall np e, np_sound np -> wfe e -> parse_expr (render_np np 0 e) = Some (conv e).
+Proof. exact parse_roundtrip. Qed.
+Print Assumptions C05_parse.
+Theorem C05_parse_minimal : forall e, wfe e -> parse_expr (render_np np_min 0 e) = Some (conv e).
+Proof. intros e H. apply parse_roundtrip; [exact np_min_sound | exact H]. Qed.
+(** ... also when other text follows (no identifier character right after; next non-blank neither '(' nor an operator character) *)
+Theorem C05_parse_in_context : forall np e rest, np_sound np -> wfe e -> neutral_rest rest ->
+  expr_rule (render_np np 0 e ++ rest) = Some (conv e, rest).
+Proof. exact climb_roundtrip_ctx. Qed.
+Print Assumptions C05_parse_in_context.
+(** the levels used by the printers are the documented ones *)
+Theorem C05_levels : forall o, ExprRoundTrip.lb o = doc_level_bin o.
+Proof. intros o. destruct o; reflexivity. Qed.
+Example C05_parse_example :
+  render_np np_min 0 (EB BSub (EB BSub (ENum 10) (ENum 4)) (EB BMul (ENum 3) (EU UMinus (EId (lit "x"))))) = lit "10-4-3*-x" /\
+  render_np np_min 0 (EB BSub (ENum 10) (EB BSub (ENum 4) (ENum 3))) = lit "10-(4-3)" /\
+  render_np np_min 0 (EB BMul (EB BAdd (ENum 1) (ENum 2)) (EU UBitNot (EB BOr (ENum 1) (ENum 2)))) = lit "(1+2)*~(1|2)".
+Proof. vm_compute. repeat split; reflexivity. Qed.
+
 (** Examples: the parser and the evaluator together on precedence-sensitive texts. *)
 Definition value_of (text : string) : option (res Z) :=
   match parse_expr (list_ascii_of_string text) with
